@@ -11,6 +11,11 @@ i128 g_d;                           /* ghost candidate divisor / multiple for th
 #define HGHOSTS GHOSTG(i128, g_x); GHOSTG(i128, g_y); GHOSTG(i128, g_d)
 /* magnitudes accepted by the private (a, b) constructor and the gcd/lcm helpers: products of two inputs */
 #define ZB2 (ZB * ZB * 4)
+/* magnitudes accepted by the private (a, b) constructor (Shl passes a * 2^k) */
+#ifndef CTBITS
+#define CTBITS (2 * ZBITS + 2)
+#endif
+#define CTB (((i128)1) << CTBITS)
 
 #define A(p) c_a(*(p))
 #define Bq(p) c_b(*(p))
@@ -31,22 +36,29 @@ i128 g_d;                           /* ghost candidate divisor / multiple for th
    && ((x) != 0 ==> (r) <= iabs(x)) && ((y) != 0 ==> (r) <= iabs(y)) && ((dvd(g_d, x) && dvd(g_d, y)) ==> dvd(g_d, r)))
 /* gcd_helper(x, y) = (y == 0) ? x : gcd_helper(y, x % y): Euclid on non-negative arguments.  The recursive call is
  * replaced by this contract (partial correctness; it terminates because 0 <= x % y < y, not machine-checked). */
-//@check id=gcd_helper fn=_ZNK4ikos10congruenceINS_8z_numberEE10gcd_helperES1_S1_ props=C08 defs=ZM_SMALL=16,ZBITS=3 unwind=24
+/* NOT RUN BY THE DRIVER: `goto-instrument --enforce-contract` forbids recursion in the checked function (obligation
+ * no_recursive_call); the inductive check needs `--enforce-contract-rec` (a driver key such as rec=1).  Run by hand with
+ * --enforce-contract-rec it holds (ZM_SMALL=16,ZBITS=3: 410 obligations, 86 s).  Until then the driver covers the body
+ * through gcd2_unwound below (bounded) and uses this contract as an assumption in gcd2. */
+//@manual id=gcd_helper fn=_ZNK4ikos10congruenceINS_8z_numberEE10gcd_helperES1_S1_ props=C08 defs=ZM_SMALL=16,ZBITS=3 rec=1
 void _ZNK4ikos10congruenceINS_8z_numberEE10gcd_helperES1_S1_(Z *ret, C *self, Z *x, Z *y)
-__CPROVER_requires(ZFRESH3(gcd_helper) && X >= 0 && Y >= 0 && X < ZB2 && Y < ZB2 && inb(g_d, ZB2))
+__CPROVER_requires(ZFRESH3(gcd_helper) && X >= 0 && Y >= 0 && X < CTB && Y < CTB && inb(g_d, CTB))
 __CPROVER_assigns(*ret)
 __CPROVER_ensures(IS_GCD(R, X, Y));
 void h_gcd_helper(void){ IN(Z, a); IN(Z, b); HGHOSTS; C c; Z r; _ZNK4ikos10congruenceINS_8z_numberEE10gcd_helperES1_S1_(&r, &c, &a, &b); REACH; }
 //@check id=gcd2 fn=_ZNK4ikos10congruenceINS_8z_numberEE3gcdES1_S1_ props=C08 defs=ZM_SMALL=16,ZBITS=3 replace=_ZNK4ikos10congruenceINS_8z_numberEE10gcd_helperES1_S1_
 void _ZNK4ikos10congruenceINS_8z_numberEE3gcdES1_S1_(Z *ret, C *self, Z *x, Z *y)
-__CPROVER_requires(ZFRESH3(gcd2) && inb(X, ZB2) && inb(Y, ZB2) && inb(g_d, ZB2))
+__CPROVER_requires(ZFRESH3(gcd2) && inb(X, CTB) && inb(Y, CTB) && inb(g_d, CTB))
 __CPROVER_assigns(*ret)
 __CPROVER_ensures(IS_GCD(R, X, Y));
+/* BOUNDED: the same contract with the real recursive gcd_helper in line, unwound (Euclid on values below 2^(2*ZBITS+2) = 2^8
+ * makes at most 12 recursive calls) */
+//@check id=gcd2_unwound fn=_ZNK4ikos10congruenceINS_8z_numberEE3gcdES1_S1_ tag=gcd2 harness=h_gcd2 props=C08 defs=ZM_SMALL=16,ZBITS=3 unwind=16
 void h_gcd2(void){ IN(Z, a); IN(Z, b); HGHOSTS; C c; Z r; _ZNK4ikos10congruenceINS_8z_numberEE3gcdES1_S1_(&r, &c, &a, &b); REACH; }
 #define W zraw(*z)
 //@check id=gcd3 fn=_ZNK4ikos10congruenceINS_8z_numberEE3gcdES1_S1_S1_ props=C08 defs=ZM_SMALL=16,ZBITS=3 replace=_ZNK4ikos10congruenceINS_8z_numberEE3gcdES1_S1_
 void _ZNK4ikos10congruenceINS_8z_numberEE3gcdES1_S1_S1_(Z *ret, C *self, Z *x, Z *y, Z *z)
-__CPROVER_requires(ZFRESH3(gcd3) && FRESH(gcd3, z, sizeof(Z)) && inb(X, ZB2) && inb(Y, ZB2) && inb(W, ZB2) && inb(g_d, ZB2))
+__CPROVER_requires(ZFRESH3(gcd3) && FRESH(gcd3, z, sizeof(Z)) && inb(X, CTB) && inb(Y, CTB) && inb(W, CTB) && inb(g_d, CTB))
 __CPROVER_assigns(*ret)
 __CPROVER_ensures(R >= 0 && dvd(R, X) && dvd(R, Y) && dvd(R, W) && ((R == 0) == (X == 0 && Y == 0 && W == 0)))
 __CPROVER_ensures((X != 0 ==> R <= iabs(X)) && (Y != 0 ==> R <= iabs(Y)) && (W != 0 ==> R <= iabs(W)))
@@ -54,22 +66,24 @@ __CPROVER_ensures((dvd(g_d, X) && dvd(g_d, Y) && dvd(g_d, W)) ==> dvd(g_d, R));
 void h_gcd3(void){ IN(Z, a); IN(Z, b); IN(Z, c); HGHOSTS; C s; Z r; _ZNK4ikos10congruenceINS_8z_numberEE3gcdES1_S1_S1_(&r, &s, &a, &b, &c); REACH; }
 /* lcm(x, y) = |x * y| / gcd(x, y) for x, y != 0 (the only use): a positive common multiple that divides every common
  * multiple g_d */
-//@check id=lcm fn=_ZNK4ikos10congruenceINS_8z_numberEE3lcmES1_S1_ props=C08 defs=ZM_SMALL=16,ZBITS=3 replace=_ZNK4ikos10congruenceINS_8z_numberEE3gcdES1_S1_
+/* BOUNDED: the real gcd / gcd_helper in line ("least" needs "greatest" at another point than g_d); Euclid on values below
+ * 2^ZBITS makes fewer than 2*ZBITS+2 recursive calls */
+//@check id=lcm fn=_ZNK4ikos10congruenceINS_8z_numberEE3lcmES1_S1_ props=C08 defs=ZM_SMALL=16,ZBITS=3 unwind=16
 void _ZNK4ikos10congruenceINS_8z_numberEE3lcmES1_S1_(Z *ret, C *self, Z *x, Z *y)
-__CPROVER_requires(ZFRESH3(lcm) && inb(X, ZB) && inb(Y, ZB) && X != 0 && Y != 0 && inb(g_d, ZB2))
+__CPROVER_requires(ZFRESH3(lcm) && inb(X, ZB) && inb(Y, ZB) && X != 0 && Y != 0 && inb(g_d, CTB))
 __CPROVER_assigns(*ret)
 __CPROVER_ensures(R > 0 && R < ZB2 && dvd(X, R) && dvd(Y, R) && R >= iabs(X) && R >= iabs(Y))
 __CPROVER_ensures((dvd(X, g_d) && dvd(Y, g_d)) ==> dvd(R, g_d));
 void h_lcm(void){ IN(Z, a); IN(Z, b); HGHOSTS; C s; Z r; _ZNK4ikos10congruenceINS_8z_numberEE3lcmES1_S1_(&r, &s, &a, &b); REACH; }
 #define ZUN(tag, fn, EXPR) \
 void fn(Z *ret, C *self, Z *x) \
-__CPROVER_requires(FRESH(tag, ret, sizeof(Z)) && FRESH(tag, x, sizeof(Z)) && inb(X, ZB2)) \
+__CPROVER_requires(FRESH(tag, ret, sizeof(Z)) && FRESH(tag, x, sizeof(Z)) && inb(X, CTB)) \
 __CPROVER_assigns(*ret) \
 __CPROVER_ensures(R == (EXPR)); \
 void h_##tag(void){ IN(Z, a); C s; Z r; fn(&r, &s, &a); REACH; }
 #define ZBI(tag, fn, EXPR) \
 void fn(Z *ret, C *self, Z *x, Z *y) \
-__CPROVER_requires(ZFRESH3(tag) && inb(X, ZB2) && inb(Y, ZB2)) \
+__CPROVER_requires(ZFRESH3(tag) && inb(X, CTB) && inb(Y, CTB)) \
 __CPROVER_assigns(*ret) \
 __CPROVER_ensures(R == (EXPR)); \
 void h_##tag(void){ IN(Z, a); IN(Z, b); C s; Z r; fn(&r, &s, &a, &b); REACH; }
@@ -86,9 +100,9 @@ ZBI(max, _ZNK4ikos10congruenceINS_8z_numberEE3maxES1_S1_, imax(X, Y))
 //@check id=ctor_ab fn=_ZN4ikos10congruenceINS_8z_numberEEC2ES1_S1_ props=C08,C04 defs=ZM_SMALL=16,ZBITS=3
 void _ZN4ikos10congruenceINS_8z_numberEEC2ES1_S1_(C *self, Z *a, Z *b)
 __CPROVER_requires(FRESH(ctor_ab, self, sizeof(C)) && FRESH(ctor_ab, a, sizeof(Z)) && FRESH(ctor_ab, b, sizeof(Z)))
-__CPROVER_requires(inb(zraw(*a), ZB2) && inb(zraw(*b), ZB2) && TOP(ctor_ab, GRANGE))
+__CPROVER_requires(inb(zraw(*a), CTB) && inb(zraw(*b), CTB) && TOP(ctor_ab, GRANGE))
 __CPROVER_assigns(*self)
-__CPROVER_ensures(c_okz(*self, ZB2))
+__CPROVER_ensures(c_okz(*self, CTB))
 __CPROVER_ensures(c_is(*self, zraw(*a), zraw(*b)))
 __CPROVER_ensures(TOP(ctor_ab, c_has(*self, g_x) == ab_has(zraw(*a), zraw(*b), g_x)));
 void h_ctor_ab(void){ IN(Z, a); IN(Z, b); HGHOSTS; C r; _ZN4ikos10congruenceINS_8z_numberEEC2ES1_S1_(&r, &a, &b); REACH; }
@@ -96,9 +110,9 @@ void h_ctor_ab(void){ IN(Z, a); IN(Z, b); HGHOSTS; C r; _ZN4ikos10congruenceINS_
 /* normalize() [private]: brings the remainder into [0, a) and leaves the described set unchanged */
 //@check id=normalize fn=_ZN4ikos10congruenceINS_8z_numberEE9normalizeEv props=C08,C04 defs=ZM_SMALL=16,ZBITS=3
 void _ZN4ikos10congruenceINS_8z_numberEE9normalizeEv(C *self)
-__CPROVER_requires(FRESH(normalize, self, sizeof(C)) && self->f0 <= 1 && inb(A(self), ZB2) && inb(Bq(self), ZB2) && TOP(normalize, GRANGE))
+__CPROVER_requires(FRESH(normalize, self, sizeof(C)) && self->f0 <= 1 && inb(A(self), CTB) && inb(Bq(self), CTB) && TOP(normalize, GRANGE))
 __CPROVER_assigns(*self)
-__CPROVER_ensures(c_okz(*self, ZB2) && self->f0 == __CPROVER_old(self->f0))
+__CPROVER_ensures(c_okz(*self, CTB) && self->f0 == __CPROVER_old(self->f0))
 __CPROVER_ensures(TOP(normalize, ab_has(c_a(*self), c_b(*self), g_x) == ab_has(OLDZ(self->f1), OLDZ(self->f2), g_x)));
 void h_normalize(void){ IN(C, a); HGHOSTS; _ZN4ikos10congruenceINS_8z_numberEE9normalizeEv(&a); REACH; }
 
@@ -173,9 +187,9 @@ void h_is_bottom_of_consts(void){ HGHOSTS; C r, s; _ZN4ikos10congruenceINS_8z_nu
   unsigned char t = _ZNK4ikos10congruenceINS_8z_numberEE9is_bottomEv(&r); __CPROVER_assert(t, "bottom().is_bottom() is true");
   t = _ZNK4ikos10congruenceINS_8z_numberEE9is_bottomEv(&s); __CPROVER_assert(!t, "top().is_bottom() is false"); REACH; }
 //@check id=is_zero fn=_ZNK4ikos10congruenceINS_8z_numberEE7is_zeroEv props=C08
-CQUERY(is_zero, _ZNK4ikos10congruenceINS_8z_numberEE7is_zeroEv, c_single(*self) && c_b(*self) == 0, RV == (c_has(*self, 0) && (!c_has(*self, g_x) || g_x == 0)))
+CQUERY(is_zero, _ZNK4ikos10congruenceINS_8z_numberEE7is_zeroEv, c_single(*self) && c_b(*self) == 0, !RV || (c_has(*self, g_x) == (g_x == 0)))
 //@check id=all_ones fn=_ZNK4ikos10congruenceINS_8z_numberEE8all_onesEv props=C08
-CQUERY(all_ones, _ZNK4ikos10congruenceINS_8z_numberEE8all_onesEv, c_single(*self) && c_b(*self) == -1, 1)
+CQUERY(all_ones, _ZNK4ikos10congruenceINS_8z_numberEE8all_onesEv, c_single(*self) && c_b(*self) == -1, !RV || (c_has(*self, g_x) == (g_x == -1)))
 
 #define ZGET(tag, fn, EXPR) \
 void fn(Z *ret, C *self) \
@@ -215,7 +229,14 @@ __CPROVER_ensures((RV != 0) == !c_eq(*self, *x));
 void h_ne(void){ IN(C, a); IN(C, b); _ZNK4ikos10congruenceINS_8z_numberEEneERKS2_(&a, &b); REACH; }
 
 /* inclusion: yes on equal values, with bottom on the left, with top on the right; a yes means inclusion of the
- * described sets; and (precision, exact on normal forms) the answer is the divisibility characterisation */
+ * described sets.  Check leq_exact adds PRECISION, which C04 does not demand: a no means non-inclusion (the answer is
+ * the divisibility characterisation a' | a and a' | b - b'). */
+#ifdef CHECK_leq_exact
+#define LEQ_EXACT ((RV != 0) == c_leq(*self, *x))
+#else
+#define LEQ_EXACT 1
+#endif
+//@check id=leq_exact fn=_ZNK4ikos10congruenceINS_8z_numberEEleERKS2_ tag=leq harness=h_leq props=C04 defs=ZM_SMALL=16,ZBITS=3
 //@check id=leq fn=_ZNK4ikos10congruenceINS_8z_numberEEleERKS2_ props=C08,C04 defs=ZM_SMALL=16,ZBITS=3
 unsigned char _ZNK4ikos10congruenceINS_8z_numberEEleERKS2_(C *self, C *x)
 __CPROVER_requires(CFRESH2(leq) && c_ok(*self) && c_ok(*x) && TOP(leq, GRANGE))
@@ -224,7 +245,7 @@ __CPROVER_ensures(TOP(leq, (RV && c_has(*self, g_x)) ==> c_has(*x, g_x)))
 __CPROVER_ensures(c_bot(*self) ==> RV)
 __CPROVER_ensures(c_top(*x) ==> RV)
 __CPROVER_ensures(c_eq(*self, *x) ==> RV)
-__CPROVER_ensures((RV != 0) == c_leq(*self, *x));
+__CPROVER_ensures(LEQ_EXACT);
 void h_leq(void){ IN(C, a); IN(C, b); HGHOSTS; _ZNK4ikos10congruenceINS_8z_numberEEleERKS2_(&a, &b); REACH; }
 /* reflexivity: the same object on both sides */
 //@check id=leq_refl fn=_ZNK4ikos10congruenceINS_8z_numberEEleERKS2_ tag=leq props=C04 defs=ZM_SMALL=16,ZBITS=3
@@ -244,7 +265,7 @@ void h_##tag(void){ IN(C, a); IN(C, b); HGHOSTS; C r; fn(&r, &a, &b); REACH; }
 
 /* join: describes at least both operands */
 //@check id=join fn=_ZNK4ikos10congruenceINS_8z_numberEEorERKS2_ props=C08,C04 defs=ZM_SMALL=16,ZBITS=3 replace=_ZN4ikos10congruenceINS_8z_numberEEC2ES1_S1_,_ZNK4ikos10congruenceINS_8z_numberEE3gcdES1_S1_,_ZNK4ikos10congruenceINS_8z_numberEE3gcdES1_S1_S1_,_ZNK4ikos10congruenceINS_8z_numberEE3lcmES1_S1_
-CBIN(join, _ZNK4ikos10congruenceINS_8z_numberEEorERKS2_, ZB, 1,
+CBIN(join, _ZNK4ikos10congruenceINS_8z_numberEEorERKS2_, 2 * ZB, 1,
      (c_has(*self, g_x) || c_has(*x, g_x)) ==> c_has(*ret, g_x))
 /* meet: describes at least the integers common to both operands; and (precision) nothing else */
 //@check id=meet fn=_ZNK4ikos10congruenceINS_8z_numberEEanERKS2_ props=C08,C04 defs=ZM_SMALL=16,ZBITS=3 replace=_ZN4ikos10congruenceINS_8z_numberEEC2ES1_S1_,_ZNK4ikos10congruenceINS_8z_numberEE3gcdES1_S1_,_ZNK4ikos10congruenceINS_8z_numberEE3gcdES1_S1_S1_,_ZNK4ikos10congruenceINS_8z_numberEE3lcmES1_S1_
@@ -257,7 +278,7 @@ CBIN(meet, _ZNK4ikos10congruenceINS_8z_numberEEanERKS2_, ZB2, 1,
  * (1 <= ret.a < self.a and ret.a | self.a): every chain of widenings is stationary after finitely many steps. */
 #define WIDEN_RANK (c_eq(*ret, *self) || c_bot(*self) || (!c_bot(*ret) && (c_a(*self) == 0 ? c_a(*ret) > 0 : (c_a(*ret) >= 1 && c_a(*ret) < c_a(*self) && dvd(c_a(*ret), c_a(*self))))))
 //@check id=widen fn=_ZNK4ikos10congruenceINS_8z_numberEEooERKS2_ props=C08,C05 defs=ZM_SMALL=16,ZBITS=3 replace=_ZN4ikos10congruenceINS_8z_numberEEC2ES1_S1_,_ZNK4ikos10congruenceINS_8z_numberEE3gcdES1_S1_,_ZNK4ikos10congruenceINS_8z_numberEE3gcdES1_S1_S1_,_ZNK4ikos10congruenceINS_8z_numberEE3lcmES1_S1_
-CBIN(widen, _ZNK4ikos10congruenceINS_8z_numberEEooERKS2_, ZB,
+CBIN(widen, _ZNK4ikos10congruenceINS_8z_numberEEooERKS2_, 2 * ZB,
      (c_leq(*x, *self) ==> c_eq(*ret, *self)) && WIDEN_RANK,
      (c_has(*self, g_x) || c_has(*x, g_x)) ==> c_has(*ret, g_x))
 /* narrowing of a decreasing pair still describes every state of its second argument (and stays below the first) */
@@ -299,11 +320,11 @@ void h_neg(void){ IN(C, a); HGHOSTS; C r; _ZNK4ikos10congruenceINS_8z_numberEEng
 
 /* ---------------------------------------------------------------- bitwise (infinite-precision two's complement) */
 //@check id=and fn=_ZNK4ikos10congruenceINS_8z_numberEE3AndERKS2_ props=C08
-CBIN(and, _ZNK4ikos10congruenceINS_8z_numberEE3AndERKS2_, ZB, ANYBOT ==> c_bot(*ret), IN2 ==> c_has(*ret, g_x & g_y))
+CBIN(and, _ZNK4ikos10congruenceINS_8z_numberEE3AndERKS2_, 2 * ZB, ANYBOT ==> c_bot(*ret), IN2 ==> c_has(*ret, g_x & g_y))
 //@check id=or fn=_ZNK4ikos10congruenceINS_8z_numberEE2OrERKS2_ props=C08
-CBIN(or, _ZNK4ikos10congruenceINS_8z_numberEE2OrERKS2_, ZB, ANYBOT ==> c_bot(*ret), IN2 ==> c_has(*ret, g_x | g_y))
+CBIN(or, _ZNK4ikos10congruenceINS_8z_numberEE2OrERKS2_, 2 * ZB, ANYBOT ==> c_bot(*ret), IN2 ==> c_has(*ret, g_x | g_y))
 //@check id=xor fn=_ZNK4ikos10congruenceINS_8z_numberEE3XorERKS2_ props=C08
-CBIN(xor, _ZNK4ikos10congruenceINS_8z_numberEE3XorERKS2_, ZB, ANYBOT ==> c_bot(*ret), IN2 ==> c_has(*ret, g_x ^ g_y))
+CBIN(xor, _ZNK4ikos10congruenceINS_8z_numberEE3XorERKS2_, 2 * ZB, ANYBOT ==> c_bot(*ret), IN2 ==> c_has(*ret, g_x ^ g_y))
 
 /* ---------------------------------------------------------------- shifts */
 /* x << k = x * 2^k for k >= 0 (negative amounts have no result).  Model restriction: amounts and moduli of the
@@ -311,7 +332,7 @@ CBIN(xor, _ZNK4ikos10congruenceINS_8z_numberEE3XorERKS2_, ZB, ANYBOT ==> c_bot(*
 #ifndef SHB
 #define SHB 20
 #endif
-//@check id=shl fn=_ZNK4ikos10congruenceINS_8z_numberEE3ShlERKS2_ props=C08 defs=ZM_SMALL=32,ZBITS=3,SHB=16 replace=_ZN4ikos10congruenceINS_8z_numberEEC2ES1_S1_,_ZNK4ikos10congruenceINS_8z_numberEE3gcdES1_S1_
+//@check id=shl fn=_ZNK4ikos10congruenceINS_8z_numberEE3ShlERKS2_ props=C08 defs=ZM_SMALL=32,ZBITS=3,SHB=16,CTBITS=26 replace=_ZN4ikos10congruenceINS_8z_numberEEC2ES1_S1_,_ZNK4ikos10congruenceINS_8z_numberEE3gcdES1_S1_
 void _ZNK4ikos10congruenceINS_8z_numberEE3ShlERKS2_(C *ret, C *self, C *x)
 __CPROVER_requires(FRESH(shl, ret, sizeof(C)) && CFRESH2(shl) && c_ok(*self) && c_ok(*x) && c_a(*x) < SHB && c_b(*x) < SHB && TOP(shl, GRANGE && g_y < SHB))
 __CPROVER_assigns(*ret)
@@ -326,7 +347,7 @@ void h_shl(void){ IN(C, a); IN(C, b); HGHOSTS; C r; _ZNK4ikos10congruenceINS_8z_
 typedef struct S_class_ikos__interval IV;
 static inline bool iv_fin(IV i){ return i.f0.f0 == 0 && i.f1.f0 == 0; }
 static inline bool iv_single(IV i, i128 n){ return iv_fin(i) && zraw(i.f0.f1) == n && zraw(i.f1.f1) == n; }
-static inline bool iv_flags(IV i){ return i.f0.f0 <= 1 && i.f1.f0 <= 1; }
+static inline bool iv_flags(IV i){ return i.f0.f0 <= 1 && i.f1.f0 <= 1 && inb(zraw(i.f0.f1), ZLIM) && inb(zraw(i.f1.f1), ZLIM); }
 static inline bool iv_has(IV i, i128 v){ return (i.f0.f0 ? zraw(i.f0.f1) < 0 : zraw(i.f0.f1) <= v) && (i.f1.f0 ? zraw(i.f1.f1) > 0 : v <= zraw(i.f1.f1)); }
 void _ZN4ikos8intervalINS_8z_numberEEC1ES1_(IV *self, Z *n)
 __CPROVER_requires(FRESH(iv_ctor, self, sizeof(IV)) && FRESH(iv_ctor, n, sizeof(Z)))
